@@ -42,8 +42,9 @@ def main():
     ap.add_argument("--tier", default="quick")
     ap.add_argument("--in-repo", action="store_true")
     ap.add_argument("--skip-suite", action="store_true")
+    ap.add_argument("--dir", default="seeded", help="seeded (property-breaking changes) or refactorings (behaviour-preserving changes)")
     a = ap.parse_args()
-    sd = ROOT / "seeded" / a.seed
+    sd = ROOT / a.dir / a.seed
     meta = json.loads((sd / "meta.json").read_text())
     props = a.props.split(",") if a.props else meta["properties"]
     res = {"seed": a.seed, "at": time.strftime("%Y-%m-%d %H:%M:%S"), "tier": a.tier, "checks": {}}
@@ -58,14 +59,22 @@ def main():
         assert r.returncode == 0, r.stderr
     try:
         demo = sd / "demo.py"
+        equiv = sd / "equiv.py"
         if demo.exists():
             r = sh(f"cd {sd} && PYTHONPATH={tree} timeout 600 /venv/bin/python demo.py")
             res["demo_clean"] = {"exit": r.returncode, "tail": (r.stdout + r.stderr)[-300:]}
+        if equiv.exists():
+            r = sh(f"cd {sd} && PYTHONPATH={tree} timeout 600 /venv/bin/python equiv.py")
+            res["equiv_clean"] = {"exit": r.returncode, "out": r.stdout[-400:]}
         r = sh(f"git -C {tree} apply {sd / 'patch.diff'}")
         assert r.returncode == 0, "patch does not apply: " + r.stderr
         if demo.exists():
             r = sh(f"cd {sd} && PYTHONPATH={tree} timeout 600 /venv/bin/python demo.py")
             res["demo_patched"] = {"exit": r.returncode, "tail": (r.stdout + r.stderr)[-300:]}
+        if equiv.exists():
+            r = sh(f"cd {sd} && PYTHONPATH={tree} timeout 600 /venv/bin/python equiv.py")
+            res["equiv_patched"] = {"exit": r.returncode, "out": r.stdout[-400:]}
+            res["equiv_same_digest"] = res["equiv_patched"]["out"] == res["equiv_clean"]["out"] and r.returncode == 0
         if not a.skip_suite:
             res["suite_patched"] = suite_counts(tree)
         for p in props:
@@ -80,6 +89,7 @@ def main():
             viol = [l for l in out.splitlines() if l.startswith("VIOLATION") or l.startswith("KNOWN-FINDING")]
             why = [l for l in out.splitlines() if l.startswith("# ")]
             res["checks"][p] = {"exit": r.returncode, "detected": r.returncode != 0 and any(v.startswith("VIOLATION") for v in viol),
+                                "no_failing_input_only": bool(viol) and all(("no-failing-input-found" in v) for v in viol if v.startswith("VIOLATION")),
                                 "lines": viol[:6], "what": why[:4], "wall_s": round(time.time() - t0, 1)}
             print(p, "exit", r.returncode, *(viol[:2] or ["(no VIOLATION line)"]), sep=" | ")
     finally:
